@@ -113,7 +113,7 @@ fn gen(rng: &mut Rng, _i: u64) -> String {
 		2 => { words.insert(stub_len + 4, rng.next() as u32 | 1); words.pop(); if npad == 0 { words.push(0); } expect = "any"; }, // odd distance
 		3 => { for w in words.iter_mut().skip(16) { *w = 0; } expect = "any"; },                          // all zero
 		4 => { let k = words.len() - 1; words[k] = rng.next() as u32 | 1; expect = "any"; },             // junk instead of padding end
-		5 => { stub[15] = stub[15].wrapping_add(*rng.pick(&[1u32, 2, 3, 4, 8, 0x1000, 0x8000_0000])); words[15] = stub[15]; expect = "any"; }, // e_lfanew elsewhere
+		5 => {},  // (was: "e_lfanew elsewhere" - the image was no PE any more and the case ran with its oracle switched off; audit F12)
 		_ => {},
 	}
 	// ---- wrap into a PE32+ image: NT headers right after the DOS area
